@@ -67,6 +67,7 @@ var mutantCatalogue = map[string][]mutant{
 		{Name: "sub operands bound swapped", File: "risc/parser.go", Old: "instructions = append(instructions, &sub{\n\t\t\t\trd:  rd,\n\t\t\t\trs1: rs1,\n\t\t\t\trs2: rs2,", New: "instructions = append(instructions, &sub{\n\t\t\t\trd:  rd,\n\t\t\t\trs1: rs2,\n\t\t\t\trs2: rs1,"},
 		{Name: "operand not trimmed", File: "risc/parser.go", Old: "rs2, err := parseRegister(strings.TrimSpace(elements[2]))", New: "rs2, err := parseRegister(elements[2])"},
 		{Name: "closing parenthesis unchecked", File: "risc/parser.go", Old: "\tif !strings.HasSuffix(s, \")\") {\n\t\treturn 0, 0, fmt.Errorf(\"invalid offset register: %s\", s)\n\t}\n", New: ""},
+		{Name: "offset parsed with 64 bits", File: "risc/parser.go", Old: "imm, err := strconv.ParseInt(immString, 10, 32)", New: "imm, err := strconv.ParseInt(immString, 10, 64)"},
 		{Name: "mnemonic case kept", File: "risc/parser.go", Old: "switch strings.ToLower(line[:del]) {", New: "switch line[:del] {"},
 	},
 	"C13": {
@@ -101,6 +102,7 @@ var mutantCatalogue = map[string][]mutant{
 		{Name: "write lock released as read lock", File: "proc/mvp7-0/msi.go", Old: "\t\treturn msiResponse{writeToL1: true}, func() {\n\t\t\tm.getSem(addrs).Unlock()", New: "\t\treturn msiResponse{writeToL1: true}, func() {\n\t\t\tm.getSem(addrs).RUnlock()"},
 		{Name: "flush keeps pending fetches", File: "proc/mvp6-1/cpu.go", Old: "\tm.memoryManagementUnit.flushPendings()\n", New: ""},
 		{Name: "completion predicate forgets the write bus", File: "proc/mvp6-3/cpu.go", Old: "\t\tm.executeBus.IsEmpty() &&\n\t\tm.writeBus.IsEmpty()", New: "\t\tm.executeBus.IsEmpty()"},
+		{Name: "drain loop connects the bus only before the loop", File: "proc/mvp6-3/cpu.go", Old: "\t\t\t\tfor _, wu := range m.writeUnits {\n\t\t\t\t\tfor !wu.isEmpty() || !m.writeBus.IsEmpty() {\n\t\t\t\t\t\t// The queue of the bus may be smaller than what the execute units\n\t\t\t\t\t\t// have buffered\n\t\t\t\t\t\tm.writeBus.Connect(cycle + 1)\n", New: "\t\t\t\tm.writeBus.Connect(cycle + 1)\n\t\t\t\tfor _, wu := range m.writeUnits {\n\t\t\t\t\tfor !wu.isEmpty() || !m.writeBus.IsEmpty() {\n"},
 		{Name: "nop costs zero cycles", File: "risc/risc.go", Old: "\tcase Nop:\n\t\treturn 1", New: "\tcase Nop:\n\t\treturn 0"},
 	},
 	"C09": {
@@ -119,6 +121,7 @@ var mutantCatalogue = map[string][]mutant{
 		{Name: "Bltu leaves the branch table", File: "risc/risc.go", Old: "case Beq, Beqz, Bne, Bnez, Blt, Bltu, Ble, Bge, Bgeu:", New: "case Beq, Beqz, Bne, Bnez, Blt, Ble, Bge, Bgeu:"},
 		{Name: "flush decision uses >", File: "proc/mvp6-1/bu.go", Old: "return u.expectation != pc", New: "return u.expectation > pc"},
 		{Name: "line fetch slices past the image", File: "proc/mvp7-0/mmu.go", Old: "\tfor i := 0; i < int(cacheLineSize); i++ {\n\t\tif int(alignedAddr)+i >= len(u.ctx.Memory) {\n\t\t\tmemory = append(memory, 0)\n\t\t} else {\n\t\t\tmemory = append(memory, u.ctx.Memory[int(alignedAddr)+i])\n\t\t}\n\t}\n", New: "\tmemory = append(memory, u.ctx.Memory[alignedAddr:]...)\n"},
+		{Name: "MVP-6.0 dispatches past a held-back instruction", File: "proc/mvp6-0/cu.go", Old: "\t\tu.blockedDataHazard++\n\t\treturn false, true\n", New: "\t\tu.blockedDataHazard++\n\t\treturn false, false\n"},
 		{Name: "decode does not stall after a jump", File: "proc/mvp6-0/du.go", Old: "\t\t\tu.pendingBranchResolution = true\n", New: ""},
 	},
 	"C04": {
@@ -128,6 +131,11 @@ var mutantCatalogue = map[string][]mutant{
 		{Name: "WAR not classified", File: "risc/app.go", Old: "\t\tif v, exists := ctx.PendingReadRegisters[register]; exists && v > 0 {\n\t\t\thazards = append(hazards, Hazard{Type: WriteAfterRead, Register: register})\n\t\t\thazardTypes[WriteAfterRead] = true\n\t\t}\n", New: ""},
 		{Name: "forward channel unbuffered", File: "proc/mvp6-2/cu.go", Old: "ch := make(chan int32, 1)", New: "ch := make(chan int32)"},
 		{Name: "address computed with tag 0", File: "proc/mvp8-0/eu.go", Old: "addrs := u.runner.Runner.MemoryRead(u.ctx, u.runner.SequenceID)", New: "addrs := u.runner.Runner.MemoryRead(u.ctx, 0)"},
+		{Name: "wiring clobbers the producer's register", File: "proc/mvp6-2/cu.go", Old: "\t\tpreviousRunner.Forwarder = ch\n", New: "\t\tpreviousRunner.Forwarder = ch\n\t\tpreviousRunner.ForwardRegister = register\n"},
+		{Name: "sync step keeps a stale forwarding window", File: "proc/mvp8-0/cu.go", Old: "\t\tu.pushedRunnersInPreviousCycle = nil\n\t\treturn\n", New: "\t\treturn\n"},
+		{Name: "rename table back to completion order", File: "risc/app.go", Old: "ctx.transactionRAT.WriteSorted(exe.Register, transactionUnit{sequenceID, exe.RegisterValue}, func(a, b transactionUnit) bool {\n\t\treturn a.sequenceID < b.sequenceID\n\t})", New: "ctx.transactionRAT.Write(exe.Register, transactionUnit{sequenceID, exe.RegisterValue})"},
+		{Name: "commit over a younger value", File: "risc/app.go", Old: "exists && tu.sequenceID < sequenceID {\n\t\treturn\n\t}", New: "exists && tu.sequenceID > sequenceID {\n\t\treturn\n\t}"},
+		{Name: "forwarding ignores current-cycle writers", File: "proc/mvp7-0/cu.go", Old: "\tfor currentRunner := range u.pushedRunnersInCurrentCycle {\n\t\tif slices.Contains(currentRunner.Runner.WriteRegisters(), register) {\n\t\t\treturn false, nil, risc.Zero\n\t\t}\n\t}\n", New: ""},
 		{Name: "pending write deleted outright", File: "risc/app.go", Old: "\t\tctx.PendingWriteRegisters[register]--\n\t\tif ctx.PendingWriteRegisters[register] <= 0 {\n\t\t\tdelete(ctx.PendingWriteRegisters, register)\n\t\t}\n\t}\n}\n\n// IsWriteDataHazard", New: "\t\tdelete(ctx.PendingWriteRegisters, register)\n\t}\n}\n\n// IsWriteDataHazard"},
 	},
 	"C05": {
